@@ -725,4 +725,143 @@ def run (st : St) : List Op → St × List Out
     | none => run st ops
     | some r => let (st', o) := run r.st ops; (st', r.outs ++ o)
 
+/-! ### connect() / disconnect() as sequences of atomic statements (interleaving model)
+
+`SyncLogger.connect` and `.disconnect` run in the user's thread while the incoming-packet thread delivers
+acknowledgements and log data.  Here a call is a program: the statements of the method in source order (the
+order of the loop body comes from Gen: `slConnectLoopOrder` / `slDisconnectLoopOrder`), executed one at a time,
+with arbitrary other operations in between.  Granularity: one Python statement is atomic (deliveries *inside*
+`config.start()` are not modelled). -/
+
+inductive Stmt
+  | discAdd                -- `self._cf.disconnected.add_callback(self._disconnected)`
+  | addCfg (h : Nat)       -- `self._cf.log.add_config(config)`
+  | sub (h : Nat)          -- `config.data_received_cb.add_callback(self._log_callback)`
+  | start (h : Nat)        -- `config.start()`
+  | setConn                -- `self._is_connected = True`
+  | stop (h : Nat)         -- `config.stop()`
+  | del (h : Nat)          -- `config.delete()`
+  | unsub (h : Nat)        -- `config.data_received_cb.remove_callback(self._log_callback)`
+  | discRemove             -- `self._cf.disconnected.remove_callback(self._disconnected)`
+  | setDisconn             -- `self._is_connected = False`
+  deriving Repr, DecidableEq
+
+def stmtOfName (h : Nat) (name : String) : Option Stmt :=
+  if name == "log.add_config" then some (.addCfg h)
+  else if name == "config.data_received_cb.add_callback" then some (.sub h)
+  else if name == "config.start" then some (.start h)
+  else if name == "config.stop" then some (.stop h)
+  else if name == "config.delete" then some (.del h)
+  else if name == "config.data_received_cb.remove_callback" then some (.unsub h)
+  else none
+
+/-- the statements of one loop iteration, in the order of the source -/
+def loopBlock (order : List String) (h : Nat) : List Stmt := order.filterMap (stmtOfName h)
+
+/-- `connect()` after the "already connected" test -/
+def connectProg (confs : List Nat) : List Stmt :=
+  .discAdd :: confs.flatMap (loopBlock Gen.C05.slConnectLoopOrder) ++ [.setConn]
+
+/-- `disconnect()` inside `if self._is_connected:` -/
+def disconnectProg (confs : List Nat) : List Stmt :=
+  confs.flatMap (loopBlock Gen.C05.slDisconnectLoopOrder) ++ [.discRemove, .setDisconn]
+
+/-- one statement of SyncLogger `s` -/
+def execStmt (st : St) (s : Nat) : Stmt → Option Res
+  | .discAdd => some { st := { st with discCbs := callerAdd st.discCbs s } }
+  | .addCfg h => addConfig st h
+  | .sub h =>
+    match st.conf? h with
+    | none => none
+    | some c => some { st := st.setConf h { c with dataCbs := callerAdd c.dataCbs s } }
+  | .start h => start st h
+  | .setConn =>
+    match st.sls[s]? with
+    | none => none
+    | some sl => some { st := { st with sls := st.sls.set s { sl with connected := true } } }
+  | .stop h => stop st h
+  | .del h => delete st h
+  | .unsub h =>
+    match st.conf? h with
+    | none => none
+    | some c =>
+      if c.dataCbs.contains s then some { st := st.setConf h { c with dataCbs := c.dataCbs.erase s } }
+      else some { st := st, err := some .valueError }
+  | .discRemove =>
+    if st.discCbs.contains s then some { st := { st with discCbs := st.discCbs.erase s } }
+    else some { st := st, err := some .valueError }
+  | .setDisconn =>
+    match st.sls[s]? with
+    | none => none
+    | some sl => some { st := { st with sls := st.sls.set s { sl with connected := false } } }
+
+/-- state of the interleaving model: the Log state, the remaining statements of the call in progress of each
+SyncLogger, and (ghost, for the theorems only) the blocks each logger has requested to start and not yet
+unsubscribed from -/
+structure ISt where
+  st : St := {}
+  progs : List (Nat × List Stmt) := []
+  started : List (Nat × Nat) := []
+  deriving Repr, DecidableEq
+
+def ISt.prog (i : ISt) (s : Nat) : List Stmt :=
+  match i.progs.find? (fun e => e.1 == s) with
+  | some e => e.2
+  | none => []
+
+def ISt.setProg (i : ISt) (s : Nat) (p : List Stmt) : ISt :=
+  { i with progs := (s, p) :: i.progs.filter (fun e => e.1 != s) }
+
+inductive IOp
+  | callConnect (s : Nat)      -- the user thread enters `connect()`
+  | callDisconnect (s : Nat)   -- the user thread enters `disconnect()`
+  | run (s : Nat)              -- the user thread executes the next statement of the call in progress
+  | op (o : Op)                -- anything else (packets from the incoming thread, other user operations)
+  deriving Repr, DecidableEq
+
+/-- ghost bookkeeping: `start h` executed without exception adds (s, h); `remove_callback` executed removes it -/
+def startedAfter (s : Nat) (stmt : Stmt) (err : Option PyErr) (l : List (Nat × Nat)) : List (Nat × Nat) :=
+  match stmt, err with
+  | .start h, none => (s, h) :: l
+  | .unsub h, none => l.filter (fun e => e != (s, h))
+  | _, _ => l
+
+/-- one step of the interleaving model; `none` = not possible here (no such logger, a call already in
+progress / none in progress) -/
+def istep (i : ISt) : IOp → Option (ISt × List Out × Option PyErr)
+  | .callConnect s =>
+    match i.st.sls[s]? with
+    | none => none
+    | some sl =>
+      if i.prog s ≠ [] then none
+      else if sl.connected then some (i, [], some .other)              -- Exception('Already connected')
+      else some (i.setProg s (connectProg sl.confs), [], none)
+  | .callDisconnect s =>
+    match i.st.sls[s]? with
+    | none => none
+    | some sl =>
+      if i.prog s ≠ [] then none
+      else if sl.connected then some (i.setProg s (disconnectProg sl.confs), [], none)
+      else some (i, [], none)
+  | .run s =>
+    match i.prog s with
+    | [] => none
+    | stmt :: rest =>
+      match execStmt i.st s stmt with
+      | none => none
+      | some r =>
+        some (({ i with st := r.st, started := startedAfter s stmt r.err i.started }).setProg s (if r.err.isSome then [] else rest), r.outs, r.err)
+  | .op o =>
+    match step i.st o with
+    | none => none
+    | some r => some ({ i with st := r.st }, r.outs, r.err)
+
+/-- run a schedule; impossible steps are skipped -/
+def irun (i : ISt) : List IOp → ISt × List Out
+  | [] => (i, [])
+  | a :: as =>
+    match istep i a with
+    | none => irun i as
+    | some (i', o, _) => let (i'', o') := irun i' as; (i'', o ++ o')
+
 end CfVerif.C05
